@@ -269,9 +269,14 @@ impl Compiler {
                 for t in tags {
                     self.emit(Ins::Tag(t.clone()));
                 }
-                self.emit(Ins::Eol);
-                if let Some(d) = divert {
-                    self.emit(Ins::Divert(d.clone()));
+                // T1: `text -> k` on one line: the text runs on into the target, no line end here
+                match divert {
+                    Some(d) => {
+                        self.emit(Ins::Divert(d.clone()));
+                    }
+                    None => {
+                        self.emit(Ins::Eol);
+                    }
                 }
             }
             Stmt::Assign { name, expr, kind, temp_decl } => {
